@@ -86,7 +86,6 @@ def item_dicts(rng, n):
             nm = b"".join(rng.choice(names_alpha) for _ in range(rng.choice((1, 1, 2, 2, 3, 4))))
             if rng.random() < 0.5 and names:
                 nm = rng.choice(names)[0] + rng.choice(names_alpha)      # extension of an existing name
-                nm = bytes(nm) if isinstance(nm, (bytes, bytearray)) else nm
             if nm not in seen:
                 seen.add(nm)
                 names.append((nm,))
